@@ -60,16 +60,21 @@ Lemma index_truncated_refuted_pinned :
 Proof. split; reflexivity. Qed.
 
 (* signal path *)
-Lemma faults_savemask n : dead (faults true n sig_init) = false
-                          /\ recovered (faults true n sig_init) = n.
+Lemma faults_recoverable nodefer savemask n :
+  recoverable_config nodefer savemask = true ->
+  dead (faults nodefer savemask n sig_init) = false
+  /\ recovered (faults nodefer savemask n sig_init) = n.
 Proof.
+  intros Hc.
+  assert (Hb : negb nodefer && negb savemask = false).
+  { unfold recoverable_config in Hc. destruct nodefer, savemask; try reflexivity; discriminate. }
   assert (G : forall m s, dead s = false -> blocked s = false ->
-            dead (faults true m s) = false /\ blocked (faults true m s) = false
-            /\ recovered (faults true m s) = (m + recovered s)%nat).
-  { induction m as [|m IH]; intros s Hd Hb; [cbn; repeat split; auto|].
+            dead (faults nodefer savemask m s) = false /\ blocked (faults nodefer savemask m s) = false
+            /\ recovered (faults nodefer savemask m s) = (m + recovered s)%nat).
+  { induction m as [|m IH]; intros s Hd Hbl; [cbn; repeat split; auto|].
     cbn [faults].
-    assert (E : fault true s = {| blocked := false; recovered := S (recovered s); dead := false |}).
-    { unfold fault. rewrite Hd, Hb. reflexivity. }
+    assert (E : fault nodefer savemask s = {| blocked := false; recovered := S (recovered s); dead := false |}).
+    { unfold fault. rewrite Hd, Hbl, Hb. reflexivity. }
     rewrite E.
     destruct (IH {| blocked := false; recovered := S (recovered s); dead := false |} eq_refl eq_refl) as (A & B & C).
     cbn [recovered] in C.
@@ -77,8 +82,8 @@ Proof.
   destruct (G n sig_init) as (A & _ & C); auto. rewrite A, C. cbn. split; [reflexivity|lia].
 Qed.
 
-Lemma faults_nomask_second_dies : dead (faults false 2 sig_init) = true
-                                  /\ recovered (faults false 2 sig_init) = 1%nat.
+Lemma faults_nomask_second_dies : dead (faults false false 2 sig_init) = true
+                                  /\ recovered (faults false false 2 sig_init) = 1%nat.
 Proof. split; reflexivity. Qed.
 
 (* ---------- FitIntSize ---------- *)
